@@ -43,8 +43,7 @@ Proof.
 Qed.
 
 (* checkpoints: the registry compose builds (built-in + checkpoint types + user types) *)
-Definition ckpt_reg (ureg : registry) : registry := (builtin_registry ++ ckpt_registry ++ ureg)%list.
-Definition ckpt_senv (uenv : senv) : senv := (ckpt_env ++ uenv)%list.
+(* [ckpt_reg ureg] / [ckpt_senv uenv] (Model/SerCheckpoint.v): what the correspondence check runs with *)
 
 Lemma checkpoint_roundtrip_lemma :
   forall (J JK : Type) (jenc : base -> lit -> res J) (jdec : base -> J -> res lit)
